@@ -14,8 +14,77 @@ def gen(rng, i):
     return g.scenario(nrounds=rng.choice([10, 14]), concurrency=0.3, burst=0.2, late_hello=0.3)
 
 
+OOM_RULE = ('unique names under allocation failure: in the in-process bus a Hello is made to fail at every allocation index (quick: 24 evenly '
+            'spaced), then ANOTHER client says Hello, then the first retries: the names handed out must all be fresh (Bus.tla with OomAbort and the '
+            'known half-done-Hello deviation, in which a name once assigned stays used)')
+
+
+def oom_hello(ctx, violations):
+    """returns (runs, validated)"""
+    import json
+    import os
+    import shutil
+    import random
+    import vlib
+    import c14
+    from concurrent.futures import ThreadPoolExecutor
+    rng = random.Random(ctx.seed + 3)
+    wd = vlib.scratch()
+    try:
+        conf = os.path.join(wd, 'oom.conf')
+        open(conf, 'w').write(c14.CONF)
+        jobs = []
+        maxk = 24 if ctx.quick else 100000
+        for _ in range(2 if ctx.quick else 12):
+            h = ['1 -1 hello', '2 -1 hello'] + ['%d -1 req %s %d' % (rng.choice([1, 2]), rng.choice(c14.NAMES), rng.randrange(8)) for _j in range(rng.randint(0, 2))]
+            out, rc, err = c14.run_script(ctx.build, conf, h + ['3 -1 hello'])
+            if rc != 0 or not out.strip():
+                violations.append({'signature': 'crash:busoom', 'script': h, 'stderr': err[-2000:]})
+                continue
+            last = json.loads(out.strip().splitlines()[-1])
+            n = max((o.get('allocs', 0) for ops in last['ops'] for o in ops), default=0)
+            ks = list(range(n)) if n <= maxk else sorted(set(int(i * (n - 1) / (maxk - 1)) for i in range(maxk)))
+            for k in ks:
+                jobs.append(h + ['3 %d hello' % k, 'dump', '4 -1 hello', 'dump', '3 -1 hello', 'dump'])
+        with ThreadPoolExecutor(max_workers=12) as ex:
+            results = list(ex.map(lambda j: c14.run_script(ctx.build, conf, j), jobs))
+        ok = 0
+        outs = []
+        for j, (out, rc, err) in zip(jobs, results):
+            if rc != 0 or not out.strip():
+                violations.append({'signature': 'crash:busoom rc=%d' % rc, 'script': j, 'stderr': err[-2000:],
+                                   'what': 'the in-process bus aborted under allocation failure in Hello'})
+            else:
+                outs.append((j, c14.bind_names(out)))
+        path = os.path.join(wd, 'all.ndjson')
+        open(path, 'w').write(''.join(o for _j, o in outs))
+        if outs and vlib.validate_trace_lenient(path, os.path.join(wd, 't'), cfg='BusOom.cfg') is None:
+            ok = len(outs)
+        else:
+            for j, o in outs:
+                one = os.path.join(wd, 'one.ndjson')
+                open(one, 'w').write(o)
+                r = vlib.validate_trace_lenient(one, os.path.join(wd, 't1'), cfg='BusOom.cfg')
+                if r is None:
+                    ok += 1
+                else:
+                    violations.append({'signature': 'oomhello:' + j[-6], 'script': j, 'trace': o.splitlines(), 'rejected_line': r[0],
+                                       'what': 'after a Hello that failed for lack of memory a unique name was handed out twice, or the run is otherwise no behaviour of Bus.tla'})
+        return len(jobs), ok
+    finally:
+        shutil.rmtree(wd, ignore_errors=True)
+
+
 def run(ctx):
-    return busprop.run(ctx, gen, 'C03.cfg', 72, 1600, RULE)
+    res = busprop.run(ctx, gen, 'C03.cfg', 72, 1600, RULE)
+    n, ok = oom_hello(ctx, res['violations'])
+    cov = res['coverage']
+    cov['oom_hello_runs'] = n
+    cov['traces_validated_against_impl'] += ok
+    cov['evaluations'] += n
+    cov['distinct_nontrivial'] += n
+    cov['rule'] += ' || ' + OOM_RULE
+    return res
 
 
 def replay(ctx, path):
